@@ -640,6 +640,9 @@ def configs(ctx):
     add("domain fallback", servers=1, qname="www", domain="dom.", search_arg=True, alphabet=["answer", "nxdomain", "eof"])
     add("use_search_by_default", servers=1, qname="www", search=["a."], use_search_by_default=True, alphabet=["answer", "nxdomain", "oserror"])
     add("search disabled", servers=1, qname="www", search=["a."], search_arg=False, alphabet=["answer", "nxdomain", "formerr"])
+    add("search arg False overrides use_search_by_default", servers=1, qname="www", search=["a."], use_search_by_default=True,
+        search_arg=False, alphabet=["answer", "nxdomain", "formerr"])
+    add("ndots 0", servers=1, qname="www", search=["s."], ndots=0, search_arg=True, alphabet=["answer", "nxdomain", "refused"])
     add("tcp", tcp=True, lifetime=2.0, alphabet=["answer", "truncated", "servfail", "timeout", "nxdomain", "formerr"])
     add("always_max_size server0", always_max=0, lifetime=2.0, alphabet=["answer", "truncated", "timeout", "refused"])
     add("no raise on no answer", raise_on_no_answer=False, alphabet=["answer", "nodata", "nodata-nosoa", "nxdomain", "refused", "chain2", "dangling-nodata", "dangling-nx", "danglingL-nodata"])
